@@ -75,7 +75,7 @@ fn on_fresh_thread<T: Send>(f: impl FnOnce() -> T + Send) -> T {
         std::thread::Builder::new()
             .stack_size(64 << 20)
             .spawn_scoped(s, move || {
-                rlib_treap::verif::set_priority_source(Some(hook_source));
+                install_hook();
                 f()
             })
             .expect("spawn run thread")
@@ -216,7 +216,7 @@ fn ctl(master: u64, runs: u64, replay_dir: &str) -> Json {
     m.samples.sort_by_key(|s| s.num_of("run_index").unwrap_or(0));
     m.samples.truncate(2);
 
-    rlib_treap::verif::set_priority_source(Some(hook_source));
+    install_hook();
     let mut vio = Vec::new();
     for (class, (idx, rec, v, ctx)) in m.violations.iter().take(10) {
         let prop = v.property();
@@ -449,6 +449,43 @@ fn main() {
                 None => 2,
             }
         }
+        "ctlblock" => {
+            // one block of RUN_BLOCK controlled histories in THIS process, on the first thread that
+            // creates nodes: with the plain build (no hook) the library's own generator answers the
+            // draws, and a fresh process makes that deterministic
+            simcore::silence_panics();
+            let seed: u64 = arg(&args, "--seed").and_then(|s| s.parse().ok()).unwrap_or_else(simcore::verif_seed);
+            let block: u64 = arg(&args, "--block").and_then(|s| s.parse().ok()).unwrap_or(0);
+            let (from, to) = (block * RUN_BLOCK, (block + 1) * RUN_BLOCK);
+            let mut steps = 0u64;
+            let mut walks = 0u64;
+            let mut vio: Vec<Json> = Vec::new();
+            let mut seen: HashSet<String> = HashSet::new();
+            for (idx, _rec, out, _, _) in run_block(seed, from, to, false) {
+                steps += out.stats.steps;
+                walks += out.stats.walks;
+                if let Some(v) = out.violation {
+                    if seen.insert(v.class()) {
+                        vio.push(Json::obj().with("class", Json::s(&v.class())).with("detail", Json::s(&v.detail)).with("run_index", Json::n(idx as i128)).with("property", Json::s(v.property())));
+                    }
+                }
+            }
+            println!(
+                "{}",
+                Json::obj()
+                    .with("engine", Json::s("treapsim-ctlblock"))
+                    .with("hook_compiled_in", Json::Bool(cfg!(feature = "hook")))
+                    .with("seed", Json::n(seed as i128))
+                    .with("block", Json::n(block as i128))
+                    .with("from", Json::n(from as i128))
+                    .with("runs", Json::n((to - from) as i128))
+                    .with("steps", Json::n(steps as i128))
+                    .with("invariant_walks", Json::n(walks as i128))
+                    .with("violations", Json::Arr(vio))
+                    .to_string()
+            );
+            0
+        }
         "digest" => {
             simcore::silence_panics();
             let runs: u64 = arg(&args, "--runs").and_then(|s| s.parse().ok()).unwrap_or(1000);
@@ -461,7 +498,7 @@ fn main() {
                 runs,
                 workers_from_env(),
                 |_| {
-                    rlib_treap::verif::set_priority_source(Some(hook_source));
+                    install_hook();
                     Vec::<(u64, u64)>::new()
                 },
                 move |acc, idx, _| {
